@@ -56,12 +56,14 @@ FieldValid(f, v) ==
 
 \* structural part: leaf-lists as sequences of texts, list ml as a set of [key, keyleaf, n],
 \* choice c2 as the set of populated cases
-Struct(cfgll, sll, mm, ml, c2) == [cfgll |-> cfgll, sll |-> sll, mm |-> mm, ml |-> ml, c2 |-> c2]
+Struct(cfgll, sll, mm, ml, c2) == [cfgll |-> cfgll, sll |-> sll, mm |-> mm, ml |-> ml, c2 |-> c2, ull |-> << >>]
+WithUll(s, u) == [s EXCEPT !.ull = u]
 
 NoDupSeq(s) == Cardinality({s[i] : i \in 1..Len(s)}) = Len(s)
 
 StructValid(s) ==
   /\ NoDupSeq(s.cfgll)                                  \* configuration leaf-list: unique values
+  /\ NoDupSeq(s.ull)                                    \* ... of a union type: int32 5 and string "5" are different values
   /\ (s.mm # << >> => 2 <= Len(s.mm) /\ Len(s.mm) <= 3 /\ NoDupSeq(s.mm))  \* min-elements 2, max-elements 3 (an absent
                                                                           \* leaf-list is not decided: partial trees)
   /\ Cardinality(s.ml) <= 2                             \* max-elements 2
@@ -73,7 +75,8 @@ GoodStructs ==
   { Struct(<< >>, << >>, <<"uint8:1", "uint8:2">>, {}, {}),
     Struct(<<"str:a", "str:b">>, <<"str:s", "str:s">>, <<"uint8:1", "uint8:2", "uint8:3">>,
            {[k |-> "str:k1", kl |-> "str:k1"], [k |-> "str:k2", kl |-> "str:k2"]}, {"x"}),
-    Struct(<<"str:a">>, <<"str:s">>, << >>, {[k |-> "str:k1", kl |-> "str:k1"]}, {"y"}) }
+    Struct(<<"str:a">>, <<"str:s">>, << >>, {[k |-> "str:k1", kl |-> "str:k1"]}, {"y"}),
+    WithUll(Struct(<< >>, << >>, << >>, {[k |-> "str:", kl |-> "str:"]}, {}), <<"int32:5", "str:5">>) }
 
 BadStructs ==
   { Struct(<<"str:a", "str:a">>, << >>, << >>, {}, {}),                                         \* duplicate config leaf-list value
@@ -83,6 +86,8 @@ BadStructs ==
     Struct(<< >>, << >>, <<"uint8:1", "uint8:1">>, {}, {}),                                     \* duplicate values
     Struct(<< >>, << >>, << >>, {[k |-> "str:k1", kl |-> "str:k1"], [k |-> "str:k2", kl |-> "str:k2"], [k |-> "str:k3", kl |-> "str:k3"]}, {}),
     Struct(<< >>, << >>, << >>, {[k |-> "str:k1", kl |-> "str:other"]}, {}),                   \* key mismatch
+    Struct(<< >>, << >>, << >>, {[k |-> "str:", kl |-> "str:other"]}, {}),                     \* ... under the zero-valued map key
+    WithUll(Struct(<< >>, << >>, << >>, {}, {}), <<"int32:5", "str:x", "int32:5">>),           \* duplicate in a union leaf-list
     Struct(<< >>, << >>, << >>, {[k |-> "str:k1", kl |-> ""]}, {}),                            \* key leaf unset
     Struct(<< >>, << >>, << >>, {}, {"x", "y"}) }                                               \* two cases
 
@@ -198,7 +203,7 @@ FieldsJson(fl) == SeqOfSet({<<f, fl[f].c>> : f \in {g \in DOMAIN fl : ~IsAbs(fl[
 
 Emit ==
   CASE Mode = "valid" ->
-         PrintT("VALID " \o ToJson([fields |-> FieldsJson(c.fl), cfgll |-> c.st.cfgll, sll |-> c.st.sll, mm |-> c.st.mm,
+         PrintT("VALID " \o ToJson([fields |-> FieldsJson(c.fl), cfgll |-> c.st.cfgll, sll |-> c.st.sll, mm |-> c.st.mm, ull |-> c.st.ull,
                                     ml |-> SeqOfSet(c.st.ml), c2 |-> SeqOfSet(c.st.c2), valid |-> Valid(c)]))
     [] Mode = "defaults" ->
          PrintT("DEF " \o ToJson([pre |-> SeqOfSet({<<f, DPre(c)[f]>> : f \in c.set}), ch |-> c.ch, dl |-> c.dl,
